@@ -73,11 +73,13 @@ CHECKS.update({
         text="Lean: evalPyCore_iff (the branchy _evaluate_python equals the rule: gates pass, the tag pair denotes a version "
              "range w, and w & requires_python is not reported empty), compatible_of_exists (a version admitted by "
              "requires_python inside w forces acceptance: no false rejection, via C01/C05), exists_of_compatible (dense "
-             "line: an accepted wheel has a common version), score_shape. The model (Model/Tags.lean, string slicing "
+             "line: an accepted wheel has a common version; exists_cut_of_compatible: for any order, a common cut), "
+             "wheelSpec_reads (the specifier built for the tag pair admits a final interpreter version exactly when PEP 425's "
+             "reading of the tag does: cpXY = release starts with X.Y, pyXY = same major and >= X.Y, abi3 = >= X.Y; via C04's leaf "
+             "theorem for >= and ==V.*), score_shape. The model (Model/Tags.lean, string slicing "
              "included) is compared with EnvSpec._evaluate_python on the complete python x abi tag universe for majors 2-3 / "
              "minors 0-20 under every implementation setting and 16 (quick) / 120 (thorough) requires_python shapes; an "
-             "independent PEP 425/3149/703 rule oracle decides each case on the real code. The reading of `==X.Y.*` as "
-             "`major.minor = X.Y` is the wildcard lemma (differentially checked, proof pending).",
+             "independent PEP 425/3149/703 rule oracle decides each case on the real code.",
         technique="Lean 4 proof (rule equivalence + soundness via the interval algebra) + exhaustive tag-universe correspondence",
         design_ref="6/C08"),
     "C09": dict(
